@@ -1,5 +1,47 @@
 """C09 — the control-flow graph matches x86 control flow."""
 
+LEAN = ["AvoVerif.Props.C09", "AvoVerif.Props.C09Accept", "AvoVerif.Props.C09Tables"]
+
+# Lower bounds on what the generator must have produced AND the implementation must have answered (per run, in the
+# quick tier; the thorough tier produces at least as many): a stream that silently dries up, or an instruction the
+# form table no longer builds, is a broken obligation, not a silent pass.
+FLOORS = {
+    "cases:table": 5000, "cases:enum": 13000, "cases:named": 2500,
+    "ok:graph": 7000, "err:dup": 3000, "err:trailing": 2000, "err:unknown": 4000, "err:nolabel": 1000,
+    "table:ok": 3500, "table:err:nolabel": 500, "table:err:dup": 100, "table:err:trailing": 80,
+    "named:ok": 1500, "named:err:dup": 100, "named:err:trailing": 100, "named:err:unknown": 40, "named:err:nolabel": 40,
+    "enum:ok": 2000, "enum:err:nolabel": 200,
+    "nonbranch_labelref": 3000, "name_variant_defined": 1200,
+    "shape:empty": 20, "shape:no_instructions": 100, "shape:100+_instructions": 40,
+}
+
+
+def floors(ctx, stats):
+    """Sample floors. The error classes are the harness's reading of avo's messages and are used for these
+    statistics only; when a message is reworded the class becomes `other` and only the total of errors is checked."""
+    reworded = stats.get("err:other", 0) > 0
+    for key, lo in FLOORS.items():
+        if reworded and ":err:" in key or (reworded and key.startswith("err:")):
+            continue
+        ctx.obligations += 1
+        got = stats.get(key, 0)
+        if got < lo:
+            ctx.obligation_failures.append((f"c09 sample floor {key}", f"{got} < {lo}: the generator/implementation no longer yields enough of these cases"))
+        else:
+            ctx.discharged += 1
+    ctx.obligations += 2
+    errs = sum(v for k, v in stats.items() if k.startswith("err:"))
+    if errs < 10000:
+        ctx.obligation_failures.append(("c09 sample floor errors", f"{errs} < 10000 functions reported as errors"))
+    else:
+        ctx.discharged += 1
+    if stats.get("build_failed", 0) != 0:
+        ctx.obligation_failures.append(("c09 generator", f"the form table refused {stats.get('build_failed')} instructions of the C09 alphabet: " +
+                                        ", ".join(k for k in stats if k.startswith("build_failed:"))))
+    else:
+        ctx.discharged += 1
+
+
 def run(ctx):
     if not ctx.build_harness(["c09.go", "gen_branchops.go"]):
         return
@@ -7,21 +49,45 @@ def run(ctx):
     ctx.forbidden_scan()
     if not ctx.build_driver():
         return
-    if ctx.lake_each(["AvoVerif.Props.C09", "AvoVerif.Props.C09Tables"]):
+    if ctx.lake_each(LEAN):
         ctx.audit("C09")
     if ctx.tier == "thorough":
-        ctx.leanchecker(["AvoVerif.Props.C09", "AvoVerif.Props.C09Tables"])
+        ctx.leanchecker(LEAN)
     nt = lambda req, resp: " L " in req and " I 1 " in req
     ctx.run_corpus("c09", nontrivial=nt)
     if ctx.replay:
         ctx.differential("c09", 0, nontrivial=nt)
         return
     n = 6000 if ctx.tier == "quick" else 150000
-    ctx.differential("c09", n, nontrivial=lambda req, resp: " L " in req and " I 1 " in req)
-    ctx.coverage["rule"] = ("random node sequences (labels at start/end, consecutive and duplicate labels incl. adjacent twins, "
-                            "comments, conditional/unconditional branches, RET in the middle, Rel targets, undefined labels, "
-                            "fall-off-the-end) built with the real form table, run through the real pass.LabelTarget + pass.CFG; "
-                            "Succ/Pred compared as sorted index sets with the model, and an acceptor demands the prescribed graph "
-                            "or an error; non-trivial = has a label and a branch")
-    ctx.assumptions += ["'return' is the near return RET (featureTerminal); far returns fall through in avo (conservative extra edge)",
-                        "branch/conditional/terminal classification of an instruction is taken from the implementation's flags (tied to the form table by C06/C02 checks)"]
+    if ctx.differential("c09", n, nontrivial=nt) is not None:
+        floors(ctx, ctx.coverage.get("input_distribution", {}).get("c09", {}))
+    ctx.coverage["rule"] = (
+        "three streams of node sequences, every instruction built by the real form table (x86.VerifBuild), run through the real "
+        "pass.LabelTarget + pass.CFG: (table) random functions of the shared generator: labels at start/end, consecutive and "
+        "duplicate labels incl. adjacent twins, comments, conditional/unconditional branches, RET in the middle, Rel targets, "
+        "indirect JMP r64/m64, undefined labels, fall-off-the-end; (enum) EVERY node sequence up to length 3 over {label a, label b, "
+        "comment, NOP, RET, JMP a, JNE a, JMP b, JNE b, JMP AX, JMP z(undefined), CALL a}, length 4 over 8 and length 5 over 6 of "
+        "these symbols (thorough: 4 / 5 / 6); (named) functions whose label names differ only by case, surrounding blanks, a tab, "
+        "one trailing character, length 300, Unicode (composed/decomposed), the empty name, register-like names, with CALL label "
+        "(a non-branch instruction carrying a label reference: no edge, no error), empty / label-only / comment-only functions and "
+        "functions of 100-400 instructions. Compared: (1) `cfg`: outcome of the real passes = outcome of the Lean model "
+        "(error yes/no; Succ and Pred as sets of instruction indices), (2) `accept-cfg`: the outcome is judged by the proved acceptor "
+        "acceptCFG with the control-flow class of every instruction derived from its OPCODE (JMP / J.. / RET), not from avo's flags. "
+        "Only ok / err / panic is tied to the implementation: WHICH of the four errors avo reports (its message) is read for the "
+        "sample-floor statistics only. A nil successor (fall off the end) is dropped on both sides; multiplicity and order of "
+        "Succ/Pred are not compared. Sample floors per stream and per outcome are proof obligations of the run. "
+        "Non-trivial = has a label and a branch")
+    ctx.assumptions += [
+        "'return' is the near return RET (featureTerminal); far returns (RETFW/RETFL/RETFQ) fall through in avo (a conservative extra edge)",
+        "the control-flow class of an opcode as x86 defines it is written down by hand as `specFeature`/`specFlags` (RET return, JMP "
+        "unconditional, every other J.. conditional, nothing else a branch); features_are_x86_classes proves that the regenerated table "
+        "(feature bits exported by the verif hook in a fixed layout, independent of the numbering of avo's constants) agrees for all "
+        "forms of all opcodes, and accept-cfg judges avo's per-instruction flags against it on every generated instruction",
+        "which error is reported (labelTarget_err, the four classes of buildCFG_err_iff) is a theorem about the model only; the "
+        "implementation is tied on error-or-not (and no panic)",
+        "ir.Function.LabelTarget itself (bindings of labels no branch refers to) is not compared: it is observable only through Succ/Pred",
+        "the same *ir.Instruction pointer appearing twice in Nodes is outside the model (not constructible through build.Context)",
+        "calling pass.CFG twice on one function (duplicate Succ/Pred entries) is not exercised; the graph is compared as sets",
+    ]
+    ctx.trusted += ["harness/c09.go: encoding of ir nodes into request lines and of Succ/Pred into index sets (exercised by corpus/C09 and the seeded changes)",
+                    "Drv/C09.lean: request parsing (the acceptor itself is Avo.Func.acceptCFG with acceptCFG_sound / acceptCFG_complete)"]
